@@ -221,7 +221,7 @@ theorem step_owned (s : St) (op : Op) : (step s op).1.owned = s.owned := by
     · rename_i s1 o heq
       have : s1 = (get s n).1 := by rw [heq]
       subst this
-      exact (get_core s n).owned
+      split <;> exact (get_core s n).owned
   | clear => rfl
   | setNumber o n => exact (setNumber_objs s o n).2.2
   | get n => exact (get_core s n).owned
@@ -273,7 +273,7 @@ theorem C06_free_standing_partial (s : St) (ops : List Op) (h : Inv s) (hadm : A
     two members of a free-standing collection, the second renumbered to the first one's number. -/
 theorem C06_free_standing_refuted :
     ∃ (s : St) (op : Op), Inv s ∧ ¬ Inv (step s op).1 := by
-  refine ⟨⟨false, [0, 1], [], fun o => if o = 0 then 1 else 2, fun _ => false⟩, .setNumber 1 1, ?_, ?_⟩
+  refine ⟨⟨false, [0, 1], [], fun o => if o = 0 then 1 else 2, fun _ => false, id⟩, .setNumber 1 1, ?_, ?_⟩
   · exact ⟨by decide, (by intro p hp; cases hp), (by intro h; cases h)⟩
   · intro h
     have := h.nodup
@@ -410,7 +410,12 @@ theorem C06_conflict_noop (s : St) (op : Op) (h : (step s op).2 = .err .numberCo
     split at h
     · simp at h
     · split at h <;> simp at h
-  | delitem n => change (delitem s n).2 = _ at h; unfold delitem at h; split at h <;> simp at h
+  | delitem n =>
+    change (delitem s n).2 = _ at h
+    unfold delitem at h
+    split at h
+    · simp at h
+    · split at h <;> simp at h
   | clear => simp [step, clear] at h
   | setNumber o n =>
     exact fromCore (setNumber_err_core (by show (setNumber s o n).2 ≠ _; rw [show (setNumber s o n).2 = _ from h]; simp))
